@@ -1,9 +1,10 @@
 /-
   C12  Compaction and key changes keep the data and really change the key.
-  (This file: compaction and history rewrites at the folder-content level; the key
-  side is in the symbolic crypto model, Props/C10.)
+  Compaction and history rewrites at the folder-content level; key changes (password,
+  cipher, KDF) in the symbolic crypto model of SosModel/Rekey.lean.
 -/
 import SosModel.Props.C02
+import SosModel.Rekey
 namespace Sos.Props.C12
 open Sos Sos.Folder
 
@@ -88,5 +89,157 @@ theorem maintenance_history_consistent (n fl d : Nat) (ms : List Maint) :
 
 example : (([Maint.op (.create 1 5), .op (.setFlags 256), .op (.delete 1), .op (.create 2 7), .compact].foldl
     Maint.run (Folder.new 3 0 0)).log) = [.createVault 3 256 0, .createSecret 2 7] := by decide
+
+
+/-! ### key changes -/
+section Rekey
+open Sos.Crypto Sos.Rekey
+
+theorem openRow_sealRows (c : CipherId) (k : Key) (n : Nat) (rs : List (Nat × Bytes × Bytes)) :
+    (sealRows c k n rs).mapM (openRow c k) = some rs := by
+  induction rs generalizing n with
+  | nil => rfl
+  | cons r rest ih =>
+    obtain ⟨i, m, s⟩ := r
+    simp only [sealRows, List.mapM_cons, openRow, decrypt, encrypt, ne_eq, not_true_eq_false,
+      if_false, if_true, ih]
+    rfl
+
+/-- C12/5.  A key change keeps the data: the re-keyed folder, read with the NEW key, has the
+same folder meta and the same secrets (ids, order, meta, content). -/
+theorem rekey_preserves_content (f f' : EncFolder) (c' : CipherId) (k' : Key) (n : Nat)
+    (h : rekey f c' k' n = some f') : f'.content = f.content := by
+  unfold rekey at h
+  cases hc : f.content with
+  | none => simp [hc] at h
+  | some mr =>
+    obtain ⟨m, rs⟩ := mr
+    simp only [hc, Option.some.injEq] at h
+    subst h
+    simp only [EncFolder.content, decrypt, encrypt, ne_eq, not_true_eq_false, if_false, if_true,
+      openRow_sealRows]
+
+theorem mem_sealRows_blobs (c : CipherId) (k : Key) (n : Nat) (rs : List (Nat × Bytes × Bytes)) (p : Pack)
+    (hp : p ∈ (sealRows c k n rs).flatMap (fun r => [r.2.1, r.2.2])) :
+    p.box.key = k ∧ p.nonceBytes = nonceLen c := by
+  induction rs generalizing n with
+  | nil => simp [sealRows] at hp
+  | cons r rest ih =>
+    obtain ⟨i, m, s⟩ := r
+    simp only [sealRows, List.flatMap_cons, List.mem_append, List.mem_cons, List.not_mem_nil,
+      or_false] at hp
+    rcases hp with (h | h) | h
+    · subst h; simp [encrypt]
+    · subst h; simp [encrypt]
+    · exact ih _ h
+
+/-- C12/6.  A key change really changes the key: after re-keying to a different key (new
+password, or new salt / KDF) NO stored blob of the folder opens with the old key, with either
+cipher. -/
+theorem old_key_opens_nothing (f f' : EncFolder) (c' : CipherId) (k' : Key) (n : Nat)
+    (h : rekey f c' k' n = some f') (hk : k' ≠ f.key) :
+    ∀ p ∈ f'.blobs, ∀ c, decrypt c f.key p = none := by
+  unfold rekey at h
+  cases hc : f.content with
+  | none => simp [hc] at h
+  | some mr =>
+    obtain ⟨m, rs⟩ := mr
+    simp only [hc, Option.some.injEq] at h
+    subst h
+    intro p hp c
+    simp only [EncFolder.blobs, List.mem_cons] at hp
+    have hkey : p.box.key = k' := by
+      rcases hp with h | h
+      · subst h; simp [encrypt]
+      · exact (mem_sealRows_blobs c' k' _ rs p h).1
+    unfold decrypt
+    split
+    · rfl
+    · simp [hkey, hk]
+
+/-- C12/7.  A cipher change with the SAME key derivation still leaves no blob readable the
+old way: every blob carries the new cipher's nonce length, so the old cipher refuses it. -/
+theorem old_cipher_opens_nothing (f f' : EncFolder) (c' : CipherId) (k' : Key) (n : Nat)
+    (h : rekey f c' k' n = some f') (hc' : c' ≠ f.cipher) :
+    ∀ p ∈ f'.blobs, ∀ k, decrypt f.cipher k p = none := by
+  unfold rekey at h
+  cases hc : f.content with
+  | none => simp [hc] at h
+  | some mr =>
+    obtain ⟨m, rs⟩ := mr
+    simp only [hc, Option.some.injEq] at h
+    subst h
+    intro p hp k
+    simp only [EncFolder.blobs, List.mem_cons] at hp
+    have hlen : p.nonceBytes = nonceLen c' := by
+      rcases hp with h | h
+      · subst h; simp [encrypt]
+      · exact (mem_sealRows_blobs c' k' _ rs p h).2
+    unfold decrypt
+    have : p.nonceBytes ≠ nonceLen f.cipher := by
+      rw [hlen]
+      cases c' <;> cases hf : f.cipher <;> simp_all [nonceLen]
+    simp [this]
+
+theorem sealRows_length (c : CipherId) (k : Key) (n : Nat) (rs : List (Nat × Bytes × Bytes)) :
+    (sealRows c k n rs).length = rs.length := by
+  induction rs generalizing n with
+  | nil => rfl
+  | cons r rest ih => obtain ⟨i, m, s⟩ := r; simp [sealRows, ih]
+
+theorem mapM_openRow_length (c : CipherId) (k : Key) (rows : List (Nat × Pack × Pack))
+    (rs : List (Nat × Bytes × Bytes)) (h : rows.mapM (openRow c k) = some rs) : rs.length = rows.length := by
+  induction rows generalizing rs with
+  | nil => simp at h; subst h; rfl
+  | cons r rest ih =>
+    simp only [List.mapM_cons] at h
+    cases h1 : openRow c k r with
+    | none => simp [h1] at h
+    | some x =>
+      cases h2 : rest.mapM (openRow c k) with
+      | none => simp [h1, h2] at h
+      | some xs =>
+        simp [h1, h2] at h
+        subst h
+        simp [ih xs h2]
+
+/-- C12/8.  The rebuilt log has one creation event plus one event per live secret. -/
+theorem rekey_log_shape (f f' : EncFolder) (c' : CipherId) (k' : Key) (n : Nat)
+    (h : rekey f c' k' n = some f') : f'.logLength = 1 + f.rows.length := by
+  unfold rekey at h
+  cases hc : f.content with
+  | none => simp [hc] at h
+  | some mr =>
+    obtain ⟨m, rs⟩ := mr
+    simp only [hc, Option.some.injEq] at h
+    subst h
+    simp only [EncFolder.logLength, sealRows_length]
+    unfold EncFolder.content at hc
+    cases h1 : decrypt f.cipher f.key f.metaP with
+    | none => simp [h1] at hc
+    | some m' =>
+      cases h2 : f.rows.mapM (openRow f.cipher f.key) with
+      | none => simp [h1, h2] at hc
+      | some rs' =>
+        simp [h1, h2] at hc
+        rw [← hc.2, mapM_openRow_length _ _ _ _ h2]
+
+/-- a key that does not open the folder cannot re-key it -/
+theorem rekey_needs_current_key (f : EncFolder) (c' : CipherId) (k' : Key) (n : Nat)
+    (h : f.content = none) : rekey f c' k' n = none := by
+  simp [rekey, h]
+
+private def k1 : Key := .kdf 1 [1] [7]
+private def k2 : Key := .kdf 1 [2] [7]
+private def f0 : EncFolder :=
+  { cipher := .aesgcm, key := k1, metaP := encrypt .aesgcm k1 0 [5],
+    rows := [(1, encrypt .aesgcm k1 1 [6], encrypt .aesgcm k1 2 [7])] }
+
+example : (rekey f0 .xchacha k2 10).map (·.content) = some (some ([5], [(1, [6], [7])])) := by rfl
+example : ∃ f', rekey f0 .aesgcm k2 10 = some f' ∧ ∀ p ∈ f'.blobs, decrypt .aesgcm k1 p = none := by
+  refine ⟨_, rfl, ?_⟩
+  decide
+
+end Rekey
 
 end Sos.Props.C12
